@@ -107,6 +107,7 @@ pub fn rich_dump(r: &mut Rng, prop: &str, seed: u64, profile: &str, benign_fault
         link_map: r.chance(7, 8),
         exe_name: "/usr/bin/app",
         alt_chain: false,
+        names_at_end: false,
     };
     let mut b = build_world(r, &cfg);
     let mut opts = Opts {
@@ -437,6 +438,7 @@ fn plain_cfg(nthreads: usize, nlibs: usize) -> WorldCfg {
         link_map: true,
         exe_name: "/usr/bin/app",
         alt_chain: false,
+        names_at_end: false,
     }
 }
 
@@ -561,6 +563,13 @@ fn gen_c05(r: &mut Rng, seed: u64) -> Scenario {
         let mut cs = crash_spec(r, blamed, rsp, rip);
         // segment selectors packed as the kernel does: cs | gs << 16 | fs << 32
         cs.gregs[REG_CSGSFS] = (0x33u64 | (r.below(0x10000) << 16) | (r.below(0x10000) << 32) | (r.below(0x10000) << 48)) as i64;
+        if r.chance(1, 3) {
+            // the thread id recorded inside the crash context need not be the id the caller blames
+            // (e.g. it was taken inside another pid namespace)
+            let other = tid_of(r.below(n as u64) as usize);
+            cs.tid = *r.pick(&[1, 7, PID + 3, other]);
+            tags.push("ctx-tid-differs".into());
+        }
         opts.crash = Some(cs);
         tags.push("crash".into());
     } else {
@@ -749,6 +758,15 @@ fn gen_c06(r: &mut Rng, seed: u64, idx: u64) -> Scenario {
             }
         }
         b.world.threads[ti].regs[R_RSP] = sp;
+        if !sweep && ti > 0 && r.chance(1, 16) {
+            // a stack made read-only (mprotect): still readable memory
+            if let Some(reg) = b.world.regions.iter_mut().find(|g| g.start == ss) {
+                reg.perms = "r--p".into();
+                if !tags.contains(&"readonly-stack".to_string()) {
+                    tags.push("readonly-stack".into());
+                }
+            }
+        }
         if !sweep && tags.len() < 8 {
             let cls = if sp < ss { if ss - sp <= 0x1000 { "sp-guard" } else if ss - sp <= 0x100000 { "sp-below" } else { "sp-far-below" } } else if sp & 7 != 0 { "sp-unaligned" } else if off >= 2048 { "sp-upper-half" } else { "sp-lower-half" };
             let cls = format!("{}{}", cls, if ti >= 20 { "@late" } else { "" });
@@ -1309,9 +1327,13 @@ fn gen_c18(r: &mut Rng, seed: u64) -> Scenario {
     let mut cfg = plain_cfg(n, r.below(13) as usize);
     cfg.nfds = 0;
     cfg.alt_chain = r.chance(1, 3) && cfg.nlibs > 0;
+    cfg.names_at_end = r.chance(1, 3);
     cfg.link_map = r.chance(9, 10);
     let mut b = build_world(r, &cfg);
     let mut tags = vec![format!("libs{}", cfg.nlibs.min(3))];
+    if cfg.names_at_end {
+        tags.push("names-at-mapping-end".into());
+    }
     let mut opts = Opts { blamed: tid_of(r.below(n as u64) as usize), ..Default::default() };
     b.world.cmdline = B(random_blob(r));
     b.world.environ = B(random_blob(r));
@@ -1344,6 +1366,14 @@ fn gen_c18(r: &mut Rng, seed: u64) -> Scenario {
             }
             _ => (format!("/srv/ünï/{}", i).into_bytes(), 0o040755),
         };
+        if r.chance(1, 5) && target.starts_with(b"/") {
+            // the path in the link text exists, but is another object than the one the descriptor holds
+            let other_mode = if mode & 0o170000 == 0o040000 { 0o100644 } else { 0o040755 };
+            if !b.world.files.iter().any(|f| f.path.0 == target) {
+                b.world.files.push(FileSpec { path: B(target.clone()), content: B(Vec::new()), mode: other_mode });
+                push_tags(&mut tags, &["fd-path-shadowed"]);
+            }
+        }
         b.world.fds.push(FdSpec { fd: fdn, target: B(target), mode, stat_fails: false, link_fails: false });
     }
     tags.push(format!("fds{}", match nfds { 0 => "0", 1..=5 => "1-5", _ => "6-40" }));
@@ -1696,6 +1726,16 @@ fn gen_c08(r: &mut Rng, seed: u64) -> Scenario {
         }
         b.world.files.push(FileSpec { path: B::s(path), content: B(img.file.clone()), mode: 0o100644 });
         push_tags(&mut tags, &["entry-not-lowest"]);
+    }
+    if r.chance(1, 3) {
+        // non-executable mappings below everything else (the executable is then not the first line)
+        for (i, (perms, named)) in [("rw-p", false), ("r--p", true)].iter().enumerate() {
+            if r.coin() {
+                let start = 0x1000_0000u64 + i as u64 * 0x10_0000;
+                b.world.regions.push(RegionSpec { start, len: 0x2000, perms: (*perms).into(), offset: 0, inode: if *named { 4141 } else { 0 }, name: if *named { B::s("/usr/share/locale/sim.mo") } else { B(Vec::new()) }, deleted: false, content: Content::Pattern(r.next()) });
+                push_tags(&mut tags, &["low-nonexec-mapping"]);
+            }
+        }
     }
     b.world.regions.sort_by_key(|x| x.start);
     // user mappings
@@ -2178,7 +2218,7 @@ fn gen_c02(r: &mut Rng, seed: u64) -> Scenario {
                     match r.below(4) {
                         0 => p.opts.app_memory.push((hostile_addr(r, &fake), *r.pick(&[0u64, 1, 8, 4096]))),
                         1 => p.opts.principal = Some(hostile_addr(r, &fake)),
-                        2 => p.opts.user_mappings.push(UserMapSpec { start: *r.pick(&[0u64, u64::MAX - 10, 1 << 63]), size: *r.pick(&[0u64, 100, u64::MAX]), offset: 0, perms: "r-xp".into(), name: if r.coin() { None } else { Some(B(vec![0xff, b'/', b'x'])) }, identifier: B({ let n = r.pick_copy(&[0usize, 1, 16, 64]); r.bytes(n) }) }),
+                        2 => p.opts.user_mappings.push(UserMapSpec { start: *r.pick(&[0u64, u64::MAX - 10, 1 << 63, 0x6200_0000_0000]), size: *r.pick(&[0u64, 100, u64::MAX, 0x4000]), offset: 0, perms: "r-xp".into(), name: match r.below(5) { 0 => None, 1 => Some(B(vec![0xff, b'/', b'x'])), 2 => Some(B(b"/dev/shm/caf\xe9-segment".to_vec())), 3 => Some(B(b"/dev/shm/user-segment".to_vec())), _ => Some(B(b"/dev/\xff\xfe".to_vec())) }, identifier: B({ let n = r.pick_copy(&[0usize, 1, 16, 64]); r.bytes(n) }) }),
                         _ => p.opts.direct_auxv = Some(vec![*r.pick(&[0u64, 1, 1 << 40, u64::MAX]), hostile_addr(r, &fake), hostile_addr(r, &fake), hostile_addr(r, &fake)]),
                     }
                 }
